@@ -259,9 +259,9 @@ type stRun struct {
 	prevGen  int64
 	hist     map[string][][]sh // per namespace: successive distinct non-empty publications
 	input    string
-	gone     map[string]bool  // namespaces that were in the status and left it (all shards deleted)
+	gone     map[string]bool // namespaces that were in the status and left it (all shards deleted)
 	everNs   map[string]bool
-	zombie   map[int64]bool   // shard ids that came back after their deletion
+	zombie   map[int64]bool            // shard ids that came back after their deletion
 	meta     metadata.Provider         // the store behind sr (shared with the coordinators of restart ops)
 	masked   bool                      // coord kind: observable without ensembles / status / term / leader
 	dead     bool                      // a restart did not come back: the case cannot continue
